@@ -8,7 +8,7 @@ PROP = "C08"
 def cases(tier, seed):
     out = []
     N, G = (4, 2) if tier == "quick" else (6, 3)
-    dts = ["float64", "int64", "bool", "datetime64[ns]", "timedelta64[ns]"] + ([] if tier == "quick" else ["float32", "int32", "uint64"])
+    dts = ["float64", "int64", "bool", "datetime64[ns]", "timedelta64[ns]", "uint64"] + ([] if tier == "quick" else ["float32", "int32"])
     for op in F.OPS:
         for dt in (dts if op != "cumcount" else ["int64"]):
             if op == "cumsum" and dt.startswith("datetime"):
